@@ -712,6 +712,13 @@ def _run(case: dict, exact_layer: bool) -> Outcome:
             classes.append("excluded-D5" if model.d5_shape else "excluded-D5-signature-only")
     if d6:
         classes.append("shape-D6")
+    if d5 and (real.cross_task_cancel or real.children):
+        # a cancelled scope around a task group (cancelled by deadline, by its host or from a child) makes the group abort its children
+        # a few loop turns later: whether that
+        # request reaches a child before or after the child's own cancelled scope is left (same virtual instant) is a loop-turn
+        # race the reference cannot decide - invariants only (these programs used to sit behind the D5 exclusion)
+        skip_exact = True
+        classes.append("loop-turn-race-cross-task")
     d5b = _real_sig_d5b(real)
     if d5b:
         classes.append("shape-D5b")
